@@ -54,3 +54,81 @@ pub fn vx_expect<T>(o: Option<T>) -> (r: T)
     requires o is Some
     ensures r == o->Some_0
 { unimplemented!() }
+
+// ---- arithmetic: the VM arms route to value::number::<op>; its contract (exact or Err) is
+// proved on the real bodies in unit `number`.  Here only "what the arm does with the result".
+pub enum NumOp { Add, Sub, Mul, Div, FloorDiv, Rem, Pow }
+pub uninterp spec fn num_spec(op: NumOp, a: Value, b: Value) -> Result<Value, ()>;
+pub uninterp spec fn neg_spec(a: Value) -> Result<Value, ()>;
+pub uninterp spec fn combine_spec(a: SpanRange, b: SpanRange) -> SpanRange;
+#[verifier::external_body]
+pub fn combine_spans(first: &SpanRange, second: &SpanRange) -> (r: SpanRange)
+    ensures r == combine_spec(*first, *second)
+{ unimplemented!() }
+impl Error {
+    #[verifier::external_body]
+    pub fn to_string(&self) -> String { unimplemented!() }
+}
+#[verifier::external_body]
+pub fn vx_string_contains(s: &String, pat: &str) -> bool { unimplemented!() }
+pub mod value {
+    pub mod number {
+        use crate::*;
+        macro_rules! numfn {
+            ($name:ident, $op:expr) => {
+                verus! {
+                #[verifier::external_body]
+                pub fn $name(lhs: &Value, rhs: &Value) -> (r: TeraResult<Value>)
+                    ensures r is Ok == num_spec($op, *lhs, *rhs) is Ok, r is Ok ==> r->Ok_0 == num_spec($op, *lhs, *rhs)->Ok_0
+                { unimplemented!() }
+                }
+            };
+        }
+        numfn!(add, NumOp::Add);
+        numfn!(sub, NumOp::Sub);
+        numfn!(mul, NumOp::Mul);
+        numfn!(div, NumOp::Div);
+        numfn!(floor_div, NumOp::FloorDiv);
+        numfn!(rem, NumOp::Rem);
+        numfn!(pow, NumOp::Pow);
+        verus! {
+        #[verifier::external_body]
+        pub fn negate(val: &Value) -> (r: TeraResult<Value>)
+            ensures r is Ok == neg_spec(*val) is Ok, r is Ok ==> r->Ok_0 == neg_spec(*val)->Ok_0
+        { unimplemented!() }
+        }
+    }
+}
+
+// ---- slicing / comparison / membership: exec functions of Value seen through their results
+impl Value {
+    pub uninterp spec fn i128_spec(&self) -> Option<i128>;
+    pub uninterp spec fn slice_spec(&self, s: Option<i128>, e: Option<i128>, st: Option<i128>) -> Result<Value, ()>;
+    pub uninterp spec fn contains_spec(&self, needle: Value) -> Result<bool, ()>;
+    pub uninterp spec fn pcmp_spec(&self, other: Value) -> Option<core::cmp::Ordering>;
+    pub uninterp spec fn eq_spec(&self, other: Value) -> bool;
+    #[verifier::external_body] pub fn as_i128(&self) -> (r: Option<i128>) ensures r == self.i128_spec() { unimplemented!() }
+    #[verifier::external_body]
+    pub fn slice(&self, start: Option<i128>, end: Option<i128>, step: Option<i128>) -> (r: TeraResult<Value>)
+        ensures r is Ok == self.slice_spec(start, end, step) is Ok, r is Ok ==> r->Ok_0 == self.slice_spec(start, end, step)->Ok_0
+    { unimplemented!() }
+    #[verifier::external_body]
+    pub fn contains(&self, needle: &Value) -> (r: TeraResult<bool>)
+        ensures r is Ok == self.contains_spec(*needle) is Ok, r is Ok ==> r->Ok_0 == self.contains_spec(*needle)->Ok_0
+    { unimplemented!() }
+}
+/// R19 at call sites: `a.partial_cmp(&b)` / `a == b` on Values
+#[verifier::external_body]
+pub fn vx_value_partial_cmp(a: &Value, b: &Value) -> (r: Option<core::cmp::Ordering>) ensures r == a.pcmp_spec(*b) { unimplemented!() }
+#[verifier::external_body]
+pub fn vx_value_eq(a: &Value, b: &Value) -> (r: bool) ensures r == a.eq_spec(*b) { unimplemented!() }
+/// `ord OP Ordering::Equal` (std: Less < Equal < Greater)
+pub open spec fn ord_rank(o: core::cmp::Ordering) -> int { match o { core::cmp::Ordering::Less => -1, core::cmp::Ordering::Equal => 0, core::cmp::Ordering::Greater => 1 } }
+#[verifier::external_body]
+pub fn vx_ord_lt(a: core::cmp::Ordering, b: core::cmp::Ordering) -> (r: bool) ensures r == (ord_rank(a) < ord_rank(b)) { unimplemented!() }
+#[verifier::external_body]
+pub fn vx_ord_le(a: core::cmp::Ordering, b: core::cmp::Ordering) -> (r: bool) ensures r == (ord_rank(a) <= ord_rank(b)) { unimplemented!() }
+#[verifier::external_body]
+pub fn vx_ord_gt(a: core::cmp::Ordering, b: core::cmp::Ordering) -> (r: bool) ensures r == (ord_rank(a) > ord_rank(b)) { unimplemented!() }
+#[verifier::external_body]
+pub fn vx_ord_ge(a: core::cmp::Ordering, b: core::cmp::Ordering) -> (r: bool) ensures r == (ord_rank(a) >= ord_rank(b)) { unimplemented!() }
